@@ -363,7 +363,8 @@ def run(ctx):
             if row[en][0] != want:
                 table_bad += 1
                 ctx.report(f"table:{p}:{en}", "counterexample", f"program {p} with experimental features {'enabled' if en == '1' else 'disabled'}",
-                           {"program": p, "feature_gate": g, "flag": int(en), "expected": want, "observed": row[en],
+                           {"program": p, "program_source": row.get("source", ""), "feature_gate": g, "flag": int(en), "expected": want, "observed": row[en],
+                            "replay_script": "import repo_shim, sys; sys.path.insert(0, '.')\n# c33_prog.py = the PROG text of /verif/props/C33/impl_experimental.py\nimport guppylang_internals.experimental as ex, c33_prog\nex.EXPERIMENTAL_FEATURES_ENABLED = " + str(en == "1") + "\nc33_prog." + p + ".check()   # expected: " + want,
                             "replay": "see PROG in props/C33/impl_experimental.py; set guppylang_internals.experimental.EXPERIMENTAL_FEATURES_ENABLED and call <prog>.check() under repo_shim"})
         if p != "f_plain" and row["0"][0] == "rejected":
             cls, things = row["0"][1], row["0"][2]
